@@ -10,7 +10,8 @@ RULE = ("library rebuilt with the fast_verify feature under several HBS_LMS_THRE
 ASSUMPTIONS = ["real thread interleavings and data-race freedom of the crossbeam scope are not modelled (the selection loop is proved for every arrival order)",
                "the worker RNG (OsRng) is an input of the model"]
 
-CFGS_QUICK = [{"HBS_LMS_THREADS": "4", "HBS_LMS_MAX_HASH_OPTIMIZATIONS": "200"}]
+CFGS_QUICK = [{"HBS_LMS_THREADS": "4", "HBS_LMS_MAX_HASH_OPTIMIZATIONS": "200"},
+              {"HBS_LMS_THREADS": "4", "HBS_LMS_MAX_HASH_OPTIMIZATIONS": "3"}]      # fewer trials than threads: every worker runs zero iterations
 CFGS_THOROUGH = CFGS_QUICK + [{"HBS_LMS_THREADS": "1", "HBS_LMS_MAX_HASH_OPTIMIZATIONS": "0"}, {"HBS_LMS_THREADS": "2", "HBS_LMS_MAX_HASH_OPTIMIZATIONS": "1"},
                               {"HBS_LMS_THREADS": "8", "HBS_LMS_MAX_HASH_OPTIMIZATIONS": "1000"}, {"HBS_LMS_THREADS": "3", "HBS_LMS_MAX_HASH_OPTIMIZATIONS": "100"}]
 
